@@ -18,6 +18,7 @@ import z3
 PROVE_TIMEOUT_MS = int(os.environ.get("PYDV_PROVE_TIMEOUT_MS", "20000"))
 FEAS_TIMEOUT_MS = int(os.environ.get("PYDV_FEAS_TIMEOUT_MS", "3000"))
 MAX_PATHS = int(os.environ.get("PYDV_MAX_PATHS", "20000"))
+DEBUG_BRANCH = bool(os.environ.get("PYDV_DEBUG_BRANCH"))
 
 
 _PYDV_DIR = os.path.dirname(os.path.abspath(__file__))
@@ -82,6 +83,9 @@ class Ctx(object):
         cond = as_z3_bool(cond)
         if z3.is_true(cond):
             return
+        if z3.is_false(z3.simplify(cond)):
+            # vacuity guard: a contract / harness assumption that excludes everything
+            raise OutOfSubset("an assumption is syntactically false (contradictory contract?)")
         self.pc.append(cond)
         self.solver.add(cond)
 
@@ -116,6 +120,18 @@ class Ctx(object):
             else:
                 d = False
         self.trace.append(d)
+        if DEBUG_BRANCH:
+            f = sys._getframe(1)
+            where = []
+            for _ in range(12):
+                if f is None:
+                    break
+                if not f.f_code.co_filename.startswith(_PYDV_DIR):
+                    where.append("%s:%d" % (os.path.basename(f.f_code.co_filename), f.f_lineno))
+                    if len(where) >= 2:
+                        break
+                f = f.f_back
+            self.notes.append("branch %d=%s %s @ %s" % (i, d, _short(cond, 70), ",".join(where)))
         self.assume(cond if d else z3.Not(cond))
         return d
 
@@ -156,6 +172,9 @@ class Ctx(object):
 
     def cover(self, label):
         self.covers.add(label)
+
+
+z3.set_option(max_depth=8, max_args=12, max_lines=6, max_width=240, max_visited=400)
 
 
 def _short(f, n=400):
